@@ -446,15 +446,20 @@ def assemble (mant : Nat) (exp : Int) (neg : Bool) : Nat :=
   let e : Nat := ((exp - bias) % (2^expbits : Nat)).toNat
   bits ||| (e <<< mantbits) ||| (if neg then 1 <<< mantbits <<< expbits else 0)
 
-/-- `floatBits()`: `(bits, overflow)`; `none` = panic / fuel -/
-def Decimal.floatBits (a : Decimal) : Option (Nat × Bool) :=
+/-- what the scaling part of `floatBits` hands to the rounding part -/
+inductive Prep
+  | early (r : Nat × Bool)            -- zero, obvious overflow / underflow, exponent overflow
+  | ready (a : Decimal) (exp : Int)   -- `a` after `a.Shift(1 + mantbits)`, binary exponent `exp`
+
+/-- `floatBits()` up to and including `a.Shift(int(1 + flt.mantbits))`; `none` = panic / fuel -/
+def Decimal.prepare (a : Decimal) : Option Prep :=
   let mantbits := Gen.fpMantBits
   let expbits := Gen.fpExpBits
   let bias := Gen.fpBias
   let overflow : Nat × Bool := (assemble 0 ((2^expbits : Nat) - 1 + bias) a.neg, true)
-  if a.nd == 0 then some (assemble 0 bias a.neg, false)
-  else if a.dp > 310 then some overflow
-  else if a.dp < -330 then some (assemble 0 bias a.neg, false)
+  if a.nd == 0 then some (.early (assemble 0 bias a.neg, false))
+  else if a.dp > 310 then some (.early overflow)
+  else if a.dp < -330 then some (.early (assemble 0 bias a.neg, false))
   else
     match scaleDown 2000 a 0 with
     | none => none
@@ -473,20 +478,34 @@ def Decimal.floatBits (a : Decimal) : Option (Nat × Bool) :=
         match r with
         | none => none
         | some (a, exp) =>
-          if exp - bias ≥ (2^expbits : Nat) - 1 then some overflow
+          if exp - bias ≥ (2^expbits : Nat) - 1 then some (.early overflow)
           else
             match a.shift (1 + mantbits : Nat) with
             | none => none
-            | some a =>
-              let mant := a.roundedInteger
-              let (mant, exp, ovf) : Nat × Int × Bool :=
-                if mant == 2 <<< mantbits then
-                  (mant >>> 1, exp + 1, decide (exp + 1 - bias ≥ (2^expbits : Nat) - 1))
-                else (mant, exp, false)
-              if ovf then some overflow
-              else
-                let exp := if mant &&& (1 <<< mantbits) == 0 then bias else exp
-                some (assemble mant exp a.neg, false)
+            | some a => some (.ready a exp)
+
+/-- the rest of `floatBits()`: `RoundedInteger`, the carry out of the mantissa, the denormal flag, assembly -/
+def Decimal.finish (a : Decimal) (exp : Int) : Nat × Bool :=
+  let mantbits := Gen.fpMantBits
+  let expbits := Gen.fpExpBits
+  let bias := Gen.fpBias
+  let overflow : Nat × Bool := (assemble 0 ((2^expbits : Nat) - 1 + bias) a.neg, true)
+  let mant := a.roundedInteger
+  let (mant, exp, ovf) : Nat × Int × Bool :=
+    if mant == 2 <<< mantbits then
+      (mant >>> 1, exp + 1, decide (exp + 1 - bias ≥ (2^expbits : Nat) - 1))
+    else (mant, exp, false)
+  if ovf then overflow
+  else
+    let exp := if mant &&& (1 <<< mantbits) == 0 then bias else exp
+    (assemble mant exp a.neg, false)
+
+/-- `floatBits()`: `(bits, overflow)`; `none` = panic / fuel -/
+def Decimal.floatBits (a : Decimal) : Option (Nat × Bool) :=
+  match a.prepare with
+  | none => none
+  | some (.early r) => some r
+  | some (.ready a' exp) => some (a'.finish exp)
 
 /-! ## ParseJSONFloatPrefix -/
 
